@@ -574,6 +574,8 @@ impl Wal {
             // A failed write may have left the first part of the frame in the file. Appends go to
             // the end of the file, so those bytes would end up in front of every later record and
             // make the rest of the log unreadable: cut them off again (best effort).
+            #[cfg(nervusdb_verif)]
+            let _ = crate::verif_io::step("wal_trunc", &self.path, offset, 0);
             let _ = file.set_len(offset);
             return Err(e);
         }
@@ -588,6 +590,8 @@ impl Wal {
             return Err(Error::WalProtocol("wal file is closed"));
         };
         if file.metadata()?.len() > offset {
+            #[cfg(nervusdb_verif)]
+            crate::verif_io::step("wal_trunc", &self.path, offset, 0)?;
             file.set_len(offset)?;
         }
         Ok(())
